@@ -221,6 +221,7 @@ func (c *WebRTCPeer) preparePeerConnection(config *webrtc.Configuration) error {
 	})
 	dc.OnClose(func() {
 		log.Println("WebRTC: DataChannel.OnClose")
+		vhook("peer.onclose", c.id)
 		c.Close()
 	})
 	dc.OnError(func(err error) {
